@@ -322,9 +322,9 @@ end
 def Prim.wt : Prim → Val → Bool
   | .bool, .bool _ => true
   | .int t, .int v => t.inRange v
-  | .f32, .f32 _ => true
-  | .f64, .f64 _ => true
-  | .char, .char c => c < 0x110000
+  | .f32, .f32 b => b < 4294967296                 -- a bit pattern of 32 bits
+  | .f64, .f64 b => b < 18446744073709551616       -- a bit pattern of 64 bits
+  | .char, .char c => c < 0xD800 || (0xE000 ≤ c && c ≤ 0x10FFFF)   -- a Unicode scalar value (no surrogates)
   | .str, .str _ => true
   | .bytes, .bytes _ => true
   | _, _ => false
